@@ -42,8 +42,8 @@ def _hs2(vals, f):
     return I.hs2(E, np.array(f), np.array([0.0]))
 
 
-@harness(P, quick=grid(shape=["pierson_moskowitz", "gaussian"], fg=["f3", "f4"]) + grid(shape=["jonswap"], fg=["f3"]) + grid(shape=["tma"], fg=["f3"], dep=[5000.0]),
-         thorough=grid(shape=["pierson_moskowitz", "jonswap", "gaussian"], fg=["f5"]) + grid(shape=["jonswap"], fg=["f4"]) + grid(shape=["tma"], fg=["f3", "f4"], dep=[12.0, 90.0, 600.0, 5000.0]), max_paths=400, time_budget=400, time_budget_thorough=1500, hard_timeout_thorough=1800)
+@harness(P, quick=grid(shape=["pierson_moskowitz"], fg=["f3", "f4"]) + grid(shape=["gaussian", "jonswap"], fg=["f3"]) + grid(shape=["tma"], fg=["f3"], dep=[5000.0]),
+         thorough=grid(shape=["pierson_moskowitz", "jonswap", "gaussian"], fg=["f5"]) + grid(shape=["jonswap", "gaussian"], fg=["f4"]) + grid(shape=["tma"], fg=["f3", "f4"], dep=[12.0, 90.0, 600.0, 5000.0]), max_paths=400, time_budget=400, time_budget_thorough=1500, hard_timeout_thorough=1800)
 def height(env, shape, fg, dep=None):
     """a spectrum built with a requested Hs has exactly that Hs (accessor's definition) and is non-negative."""
     from wavespectra.construct import frequency as FR
